@@ -16,23 +16,53 @@ def pend (s : State) : List Item :=
 
 def fileItems (s : State) : List Item := s.sh.file.flatMap (·.items)
 
+/-- Everything the clearing exports returned, in the order of their critical sections. -/
+def exportsItems (s : State) : List Item := s.sh.exports.flatMap (·.2)
+
 def RecInv (s : State) : Prop :=
-  s.sh.record.filter nonEmpty = (fileItems s ++ pend s).filter nonEmpty
+  (exportsItems s ++ s.sh.record).filter nonEmpty = (fileItems s ++ pend s).filter nonEmpty
+
+/-- A thread in the middle of an export holds the record lock, and what it read is still the record. -/
+structure XInv (s : State) : Prop where
+  held : ∀ t, (s.th t).xread = true → Lock.record ∈ (s.th t).held
+  copy : ∀ t, (s.th t).xread = true → (s.th t).xcopy = s.sh.record
 
 /-- What the static check guarantees in front of the actions the record invariant cares about. -/
 theorem sim_facts {cfg : Cfg} {g : Guard} {act : Act} {r : List GAct} {a : Abs}
     (hg : guardOn cfg a.depth a.hooked g = true) (h : Sim cfg (⟨g, act⟩ :: r) a = true) :
-    (act = .recAppend → Lock.console ∈ a.held ∧ a.recDone = false) ∧
+    (act = .recAppend → Lock.console ∈ a.held ∧ a.recDone = false ∧ Lock.record ∈ a.held ∧ a.xread = false) ∧
     (act = .write → Lock.console ∈ a.held ∧ (cfg.record = true → a.recDone = true)) ∧
     (act = .rel .console → a.recDone = false) ∧
     ((act = .hookPos ∨ (∃ ls, act = .pushUser ls) ∨ (∃ o c, act = .pushCtl o c) ∨ act = .renderFrame ∨ act = .restorePush ∨
-        act = .capEnd) → a.recDone = false) := by
-  refine ⟨?_, ?_, ?_, ?_⟩
+        act = .capEnd) → a.recDone = false) ∧
+    (act = .rel .record → a.xread = false) ∧
+    (act = .exportRead → Lock.record ∈ a.held ∧ a.xread = false) ∧
+    (∀ c, act = .exportEnd c → Lock.record ∈ a.held ∧ a.xread = true) := by
+  refine ⟨?_, ?_, ?_, ?_, ?_, ?_, ?_⟩
+  rotate_left 4
   · rintro rfl
     obtain ⟨a', ha, _⟩ := sim_generic rfl hg h
     simp only [absAct] at ha
     split at ha
-    · rename_i hc; exact ⟨hc.1, hc.2.2⟩
+    · rename_i hc; exact hc.2.2 trivial
+    · simp at ha
+  · rintro rfl
+    obtain ⟨a', ha, _⟩ := sim_generic rfl hg h
+    simp only [absAct] at ha
+    split at ha
+    · rename_i hc; exact hc
+    · simp at ha
+  · rintro c rfl
+    obtain ⟨a', ha, _⟩ := sim_generic rfl hg h
+    simp only [absAct] at ha
+    split at ha
+    · rename_i hc; exact hc
+    · simp at ha
+  · rintro rfl
+    obtain ⟨a', ha, _⟩ := sim_generic rfl hg h
+    simp only [absAct] at ha
+    split at ha
+    · rename_i hc; exact ⟨hc.1, hc.2.2.1, hc.2.1, hc.2.2.2⟩
     · simp at ha
   · rintro rfl
     obtain ⟨a', ha, _⟩ := sim_generic rfl hg h
@@ -44,7 +74,7 @@ theorem sim_facts {cfg : Cfg} {g : Guard} {act : Act} {r : List GAct} {a : Abs}
     obtain ⟨a', ha, _⟩ := sim_generic rfl hg h
     simp only [absAct] at ha
     split at ha
-    · rename_i hc; exact hc.2 trivial
+    · rename_i hc; exact hc.2.1 trivial
     · simp at ha
   · intro hh
     have key : ∀ act', act = act' → act'.special = false →
@@ -67,66 +97,82 @@ def Act.bufChange (act : Act) : Prop :=
 theorem exec_rec {cfg : Cfg} {t : Nat} {sh sh' : Shared} {l l' : Local} {act : Act} {r : List GAct}
     (he : exec cfg t sh { l with cont := r } act = some (sh', l')) :
     (act = .recAppend ∧ sh'.record = sh.record ++ l.buffer ∧ sh'.file = sh.file ∧ sh'.owner = sh.owner ∧
-        l'.buffer = l.buffer ∧ l'.recDone = true) ∨
+        l'.buffer = l.buffer ∧ l'.recDone = true ∧ sh'.exports = sh.exports ∧ l'.xread = l.xread ∧ l'.xcopy = l.xcopy) ∨
     (act = .write ∧ sh'.record = sh.record ∧ sh'.owner = sh.owner ∧ l'.buffer = [] ∧ l'.recDone = false ∧
-        sh'.file = (if l.buffer.any nonEmpty then sh.file ++ [⟨t, l.nops - 1, l.buffer⟩] else sh.file)) ∨
-    (act.bufChange ∧ sh'.record = sh.record ∧ sh'.file = sh.file ∧ sh'.owner = sh.owner ∧ l'.recDone = l.recDone) ∨
+        sh'.file = (if l.buffer.any nonEmpty then sh.file ++ [⟨t, l.nops - 1, l.buffer⟩] else sh.file) ∧
+        sh'.exports = sh.exports ∧ l'.xread = l.xread ∧ l'.xcopy = l.xcopy) ∨
+    (act.bufChange ∧ sh'.record = sh.record ∧ sh'.file = sh.file ∧ sh'.owner = sh.owner ∧ l'.recDone = l.recDone ∧
+        sh'.exports = sh.exports ∧ l'.xread = l.xread ∧ l'.xcopy = l.xcopy) ∨
     ((∃ lk, act = .acq lk ∨ act = .rel lk) ∧ sh'.record = sh.record ∧ sh'.file = sh.file ∧ l'.buffer = l.buffer ∧
-        l'.recDone = l.recDone) ∨
-    (sh'.record = sh.record ∧ sh'.file = sh.file ∧ sh'.owner = sh.owner ∧ l'.buffer = l.buffer ∧ l'.recDone = l.recDone) := by
+        l'.recDone = l.recDone ∧ sh'.exports = sh.exports ∧ l'.xread = l.xread ∧ l'.xcopy = l.xcopy) ∨
+    (act = .exportRead ∧ sh' = sh ∧ l'.buffer = l.buffer ∧ l'.recDone = l.recDone ∧ l'.xread = true ∧ l'.xcopy = sh.record ∧
+        l'.held = l.held) ∨
+    ((∃ c, act = .exportEnd c ∧ sh'.record = (if c then [] else sh.record) ∧
+        sh'.exports = (if c then sh.exports ++ [(t, l.xcopy)] else sh.exports)) ∧ sh'.file = sh.file ∧ sh'.owner = sh.owner ∧
+        l'.buffer = l.buffer ∧ l'.recDone = l.recDone ∧ l'.xread = false ∧ l'.held = l.held) ∨
+    (sh'.record = sh.record ∧ sh'.file = sh.file ∧ sh'.owner = sh.owner ∧ l'.buffer = l.buffer ∧ l'.recDone = l.recDone ∧
+        sh'.exports = sh.exports ∧ l'.xread = l.xread ∧ l'.xcopy = l.xcopy ∧ l'.held = l.held) := by
   cases act <;> simp only [exec] at he
   case recAppend =>
     simp only [Option.some.injEq, Prod.mk.injEq] at he
     obtain ⟨rfl, rfl⟩ := he
-    exact Or.inl ⟨rfl, rfl, rfl, rfl, rfl, rfl⟩
+    exact Or.inl ⟨rfl, rfl, rfl, rfl, rfl, rfl, rfl, rfl, rfl⟩
   case write =>
     simp only [Option.some.injEq, Prod.mk.injEq] at he
     obtain ⟨rfl, rfl⟩ := he
-    exact Or.inr (Or.inl ⟨rfl, rfl, rfl, rfl, rfl, rfl⟩)
+    exact Or.inr (Or.inl ⟨rfl, rfl, rfl, rfl, rfl, rfl, rfl, rfl, rfl⟩)
   case hookPos | restorePush | capEnd =>
     simp only [Option.some.injEq, Prod.mk.injEq] at he
     obtain ⟨rfl, rfl⟩ := he
-    exact Or.inr (Or.inr (Or.inl ⟨by simp [Act.bufChange], rfl, rfl, rfl, rfl⟩))
+    exact Or.inr (Or.inr (Or.inl ⟨by simp [Act.bufChange], rfl, rfl, rfl, rfl, rfl, rfl, rfl⟩))
   case pushUser ls =>
     simp only [Option.some.injEq, Prod.mk.injEq] at he
     obtain ⟨rfl, rfl⟩ := he
-    exact Or.inr (Or.inr (Or.inl ⟨Or.inr (Or.inl ⟨ls, rfl⟩), rfl, rfl, rfl, rfl⟩))
+    exact Or.inr (Or.inr (Or.inl ⟨Or.inr (Or.inl ⟨ls, rfl⟩), rfl, rfl, rfl, rfl, rfl, rfl, rfl⟩))
   case pushCtl o c =>
     simp only [Option.some.injEq, Prod.mk.injEq] at he
     obtain ⟨rfl, rfl⟩ := he
-    exact Or.inr (Or.inr (Or.inl ⟨Or.inr (Or.inr (Or.inl ⟨o, c, rfl⟩)), rfl, rfl, rfl, rfl⟩))
+    exact Or.inr (Or.inr (Or.inl ⟨Or.inr (Or.inr (Or.inl ⟨o, c, rfl⟩)), rfl, rfl, rfl, rfl, rfl, rfl, rfl⟩))
   case renderFrame =>
     split at he <;>
       (simp only [Option.some.injEq, Prod.mk.injEq] at he
        obtain ⟨rfl, rfl⟩ := he
-       exact Or.inr (Or.inr (Or.inl ⟨by simp [Act.bufChange], rfl, rfl, rfl, rfl⟩)))
+       exact Or.inr (Or.inr (Or.inl ⟨by simp [Act.bufChange], rfl, rfl, rfl, rfl, rfl, rfl, rfl⟩)))
   case acq lk =>
     refine Or.inr (Or.inr (Or.inr (Or.inl ⟨⟨lk, Or.inl rfl⟩, ?_⟩)))
     split at he
     · simp only [Option.some.injEq, Prod.mk.injEq] at he
       obtain ⟨rfl, rfl⟩ := he
-      exact ⟨rfl, rfl, rfl, rfl⟩
+      exact ⟨rfl, rfl, rfl, rfl, rfl, rfl, rfl⟩
     · split at he
       · simp only [Option.some.injEq, Prod.mk.injEq] at he
         obtain ⟨rfl, rfl⟩ := he
-        exact ⟨rfl, rfl, rfl, rfl⟩
+        exact ⟨rfl, rfl, rfl, rfl, rfl, rfl, rfl⟩
       · simp at he
   case rel lk =>
     refine Or.inr (Or.inr (Or.inr (Or.inl ⟨⟨lk, Or.inr rfl⟩, ?_⟩)))
     split at he <;>
       (simp only [Option.some.injEq, Prod.mk.injEq] at he
        obtain ⟨rfl, rfl⟩ := he
-       exact ⟨rfl, rfl, rfl, rfl⟩)
+       exact ⟨rfl, rfl, rfl, rfl, rfl, rfl, rfl⟩)
+  case exportRead =>
+    simp only [Option.some.injEq, Prod.mk.injEq] at he
+    obtain ⟨rfl, rfl⟩ := he
+    exact Or.inr (Or.inr (Or.inr (Or.inr (Or.inl ⟨rfl, rfl, rfl, rfl, rfl, rfl, rfl⟩))))
+  case exportEnd c =>
+    simp only [Option.some.injEq, Prod.mk.injEq] at he
+    obtain ⟨rfl, rfl⟩ := he
+    exact Or.inr (Or.inr (Or.inr (Or.inr (Or.inr (Or.inl ⟨⟨c, rfl, rfl, rfl⟩, rfl, rfl, rfl, rfl, rfl, rfl⟩)))))
   all_goals (
-    refine Or.inr (Or.inr (Or.inr (Or.inr ?_)))
+    refine Or.inr (Or.inr (Or.inr (Or.inr (Or.inr (Or.inr ?_)))))
     first
       | (simp only [Option.some.injEq, Prod.mk.injEq] at he
          obtain ⟨rfl, rfl⟩ := he
-         exact ⟨rfl, rfl, rfl, rfl, rfl⟩)
+         exact ⟨rfl, rfl, rfl, rfl, rfl, rfl, rfl, rfl, rfl⟩)
       | (split at he <;>
           (simp only [Option.some.injEq, Prod.mk.injEq] at he
            obtain ⟨rfl, rfl⟩ := he
-           exact ⟨rfl, rfl, rfl, rfl, rfl⟩)))
+           exact ⟨rfl, rfl, rfl, rfl, rfl, rfl, rfl, rfl, rfl⟩)))
 
 theorem pend_congr {s s' : State} (ho : s'.sh.owner .console = s.sh.owner .console)
     (hth : ∀ u, (s'.th u).recDone = (s.th u).recDone ∧ (s'.th u).buffer = (s.th u).buffer) : pend s' = pend s := by
@@ -135,9 +181,35 @@ theorem pend_congr {s s' : State} (ho : s'.sh.owner .console = s.sh.owner .conso
   | none => rfl
   | some u => simp only [(hth u).1, (hth u).2]
 
-/-- Every step of every thread preserves the record invariant. -/
-theorem rec_step {cfg : Cfg} {s s' : State} {t : Nat} (hrec : cfg.record = true) (inv : Inv cfg s) (ri : RecInv s)
-    (h : stepT cfg s t = some s') : RecInv s' := by
+/-- The combined invariant of the record. -/
+structure RecAll (s : State) : Prop where
+  ri : RecInv s
+  x : XInv s
+
+/-- How one step of thread `t` changed the state, as far as the record is concerned. -/
+theorem rec_frame {s : State} {t : Nat} {sh' : Shared} {l' : Local} (x : XInv s)
+    (hr : sh'.record = s.sh.record) (hx : l'.xread = (s.th t).xread) (hc : l'.xcopy = (s.th t).xcopy)
+    (hh : (s.th t).xread = true → Lock.record ∈ (s.th t).held → Lock.record ∈ l'.held) :
+    XInv { sh := sh', th := upd s.th t l' } := by
+  refine ⟨fun u h => ?_, fun u h => ?_⟩
+  · by_cases hu : u = t
+    · subst hu
+      simp only [upd_same] at h ⊢
+      rw [hx] at h
+      exact hh h (x.held u h)
+    · simp only [upd_other _ _ hu] at h ⊢; exact x.held u h
+  · by_cases hu : u = t
+    · subst hu
+      simp only [upd_same] at h ⊢
+      rw [hx] at h
+      rw [hc, hr]; exact x.copy u h
+    · simp only [upd_other _ _ hu] at h ⊢
+      rw [hr]; exact x.copy u h
+
+/-- Every step of every thread preserves the record invariants. -/
+theorem rec_step {cfg : Cfg} {s s' : State} {t : Nat} (hrec : cfg.record = true) (inv : Inv cfg s) (ra : RecAll s)
+    (h : stepT cfg s t = some s') : RecAll s' := by
+  obtain ⟨ri, x⟩ := ra
   cases hc : (s.th t).cont with
   | nil =>
     rw [stepT_nil hc] at h
@@ -149,7 +221,8 @@ theorem rec_step {cfg : Cfg} {s s' : State} {t : Nat} (hrec : cfg.record = true)
       subst h
       have hp : pend { s with th := upd s.th t { s.th t with prog := rest, cont := code cfg op, nops := (s.th t).nops + 1 } } = pend s :=
         pend_congr rfl (fun u => by by_cases hu : u = t <;> simp [upd, hu])
-      simpa only [RecInv, fileItems, hp] using ri
+      refine ⟨by simpa only [RecInv, fileItems, exportsItems, hp] using ri, ?_⟩
+      exact rec_frame x rfl rfl rfl (fun _ h => h)
   | cons g r =>
     rw [stepT_cons hc] at h
     by_cases hg : guardOn cfg (s.th t).depth (s.th t).hooked g.g = true
@@ -159,33 +232,70 @@ theorem rec_step {cfg : Cfg} {s s' : State} {t : Nat} (hrec : cfg.record = true)
       have hsim := inv.sim t
       rw [hc] at hsim
       obtain ⟨gg, act⟩ := g
-      obtain ⟨f1, f2, f3, f4⟩ := sim_facts (a := (s.th t).abs) hg hsim
+      obtain ⟨f1, f2, f3, f4, f5, f6, f7⟩ := sim_facts (a := (s.th t).abs) hg hsim
       have ownc : Lock.console ∈ (s.th t).held → s.sh.owner .console = some t := (inv.own .console t).mpr
-      rcases exec_rec he with ⟨ha, hr, hf, ho, hb, hd⟩ | ⟨ha, hr, ho, hb, hd, hf⟩ | ⟨ha, hr, hf, ho, hd⟩ | ⟨ha, hr, hf, hb, hd⟩ |
-        ⟨hr, hf, ho, hb, hd⟩
+      -- no other thread is in the middle of an export while `t` holds the record lock
+      have alone : Lock.record ∈ (s.th t).held → ∀ u, u ≠ t → (s.th u).xread = false := by
+        intro hm u hu
+        cases hxu : (s.th u).xread
+        · rfl
+        · have h1 := (inv.own .record t).mpr hm
+          have h2 := (inv.own .record u).mpr (x.held u hxu)
+          rw [h1] at h2
+          exact absurd (Option.some.inj h2).symm hu
+      have heldAcqRel : ∀ lk0, (l'.held = lk0 :: (s.th t).held ∨ (l'.held = (s.th t).held.erase lk0 ∧ (lk0 = .record → (s.th t).xread = false))) →
+          (s.th t).xread = true → ∀ lk, lk ∈ (s.th t).held → lk = Lock.record → lk ∈ l'.held := by
+        intro lk0 hcase hxr lk hm hlk
+        rcases hcase with hh | ⟨hh, hno⟩
+        · rw [hh]; exact List.mem_cons_of_mem _ hm
+        · rw [hh]
+          by_cases hk : lk0 = .record
+          · rw [hno hk] at hxr; simp at hxr
+          · subst hlk; exact (List.mem_erase_of_ne (fun h => hk h.symm)).mpr hm
+      rcases exec_rec he with ⟨ha, hr, hf, ho, hb, hd, hex, hxr, hxc⟩ | ⟨ha, hr, ho, hb, hd, hf, hex, hxr, hxc⟩ |
+        ⟨ha, hr, hf, ho, hd, hex, hxr, hxc⟩ | ⟨ha, hr, hf, hb, hd, hex, hxr, hxc⟩ | ⟨ha, hsh, hb, hd, hxr, hxc, hheld⟩ |
+        ⟨⟨c, ha, hr, hex⟩, hf, ho, hb, hd, hxr, hheld⟩ | ⟨hr, hf, ho, hb, hd, hex, hxr, hxc, hheld⟩
       · -- record append
-        obtain ⟨hheld, hrd⟩ := f1 ha
+        obtain ⟨hheld, hrd, hrheld, hxt⟩ := f1 ha
         have hoc := ownc hheld
         have hp0 : pend s = [] := by simp [pend, hoc]; exact fun h => by simp [Local.abs] at hrd; simp [hrd] at h
         have hp1 : pend { sh := sh', th := upd s.th t l' } = (s.th t).buffer := by
           simp [pend, ho, hoc, upd, hd, hb]
-        simp only [RecInv, fileItems, hr, hf, hp1] at ri ⊢
-        rw [hp0, List.append_nil] at ri
-        simp only [List.filter_append, ri]
+        refine ⟨?_, ?_⟩
+        · simp only [RecInv, fileItems, exportsItems, hr, hf, hp1, hex] at ri ⊢
+          rw [hp0, List.append_nil] at ri
+          simp only [← List.append_assoc, List.filter_append] at ri ⊢
+          rw [ri]
+        · -- nobody is reading the record right now
+          refine ⟨fun u h => ?_, fun u h => ?_⟩
+          · by_cases hu : u = t
+            · subst hu; simp only [upd_same, hxr] at h; simp [Local.abs] at hxt; rw [hxt] at h; simp at h
+            · simp only [upd_other _ _ hu] at h; rw [alone hrheld u hu] at h; simp at h
+          · by_cases hu : u = t
+            · subst hu; simp only [upd_same, hxr] at h; simp [Local.abs] at hxt; rw [hxt] at h; simp at h
+            · simp only [upd_other _ _ hu] at h; rw [alone hrheld u hu] at h; simp at h
       · -- write
         obtain ⟨hheld, hrd⟩ := f2 ha
         have hoc := ownc hheld
         have hp1 : pend { sh := sh', th := upd s.th t l' } = [] := by
           simp [pend, ho, hoc, upd, hd]
-        simp only [RecInv, fileItems, hr, hp1, List.append_nil] at ri ⊢
-        have hrd' : (s.th t).recDone = true := hrd hrec
-        have hp0 : pend s = (s.th t).buffer := by simp [pend, hoc, hrd']
-        rw [hp0] at ri
-        rw [ri, hf]
-        by_cases hany : (s.th t).buffer.any nonEmpty = true
-        · simp [hany]
-        · have hany' : (s.th t).buffer.any nonEmpty = false := by simpa using hany
-          simp only [hany', Bool.false_eq_true, if_false, List.filter_append, filter_nonEmpty_nil hany', List.append_nil]
+        refine ⟨?_, ?_⟩
+        · simp only [RecInv, fileItems, exportsItems, hr, hp1, hex, List.append_nil] at ri ⊢
+          have hrd' : (s.th t).recDone = true := hrd hrec
+          have hp0 : pend s = (s.th t).buffer := by simp [pend, hoc, hrd']
+          rw [hp0] at ri
+          rw [ri, hf]
+          by_cases hany : (s.th t).buffer.any nonEmpty = true
+          · simp [hany]
+          · have hany' : (s.th t).buffer.any nonEmpty = false := by simpa using hany
+            simp only [hany', Bool.false_eq_true, if_false, List.filter_append, filter_nonEmpty_nil hany', List.append_nil]
+        · have hheld' : l'.held = (s.th t).held := by
+            have := exec_held he
+            rcases this with ⟨lk0, h0, _⟩ | ⟨lk0, h0, _⟩ | ⟨_, hh⟩
+            · rw [ha] at h0; cases h0
+            · rw [ha] at h0; cases h0
+            · exact hh
+          exact rec_frame x hr hxr hxc (fun _ h => by rw [hheld']; exact h)
       · -- the buffer changes while nothing is pending for this thread
         have hrd : (s.th t).recDone = false := f4 ha
         have hp : pend { sh := sh', th := upd s.th t l' } = pend s := by
@@ -196,7 +306,13 @@ theorem rec_step {cfg : Cfg} {s s' : State} {t : Nat} (hrec : cfg.record = true)
             by_cases hu : u = t
             · subst hu; simp [upd, hd, hrd]
             · simp [upd, hu]
-        simpa only [RecInv, fileItems, hr, hf, hp] using ri
+        refine ⟨by simpa only [RecInv, fileItems, exportsItems, hr, hf, hp, hex] using ri, ?_⟩
+        have hheld' : l'.held = (s.th t).held := by
+          rcases exec_held he with ⟨lk0, h0, _⟩ | ⟨lk0, h0, _⟩ | ⟨_, hh⟩
+          · rcases ha with h | ⟨_, h⟩ | ⟨_, _, h⟩ | h | h | h <;> rw [h] at h0 <;> cases h0
+          · rcases ha with h | ⟨_, h⟩ | ⟨_, _, h⟩ | h | h | h <;> rw [h] at h0 <;> cases h0
+          · exact hh
+        exact rec_frame x hr hxr hxc (fun _ h => by rw [hheld']; exact h)
       · -- a lock operation
         have hp : pend { sh := sh', th := upd s.th t l' } = pend s := by
           obtain ⟨lk, hlk⟩ := ha
@@ -204,8 +320,7 @@ theorem rec_step {cfg : Cfg} {s s' : State} {t : Nat} (hrec : cfg.record = true)
           · by_cases hk : lk0 = .console
             · subst hk
               rcases hfree with hfr | hfr
-              · -- the console lock was free: this thread has nothing pending
-                have hrd : (s.th t).recDone = false := by
+              · have hrd : (s.th t).recDone = false := by
                   cases hrd : (s.th t).recDone
                   · rfl
                   · have := ownc (inv.rd t hrd); rw [hfr] at this; simp at this
@@ -236,22 +351,65 @@ theorem rec_step {cfg : Cfg} {s s' : State} {t : Nat} (hrec : cfg.record = true)
             cases s.sh.owner .console with
             | none => rfl
             | some u => by_cases hu : u = t <;> simp [upd, hu, hd, hb]
-        simpa only [RecInv, fileItems, hr, hf, hp] using ri
-      · have hp : pend { sh := sh', th := upd s.th t l' } = pend s := by
+        refine ⟨by simpa only [RecInv, fileItems, exportsItems, hr, hf, hp, hex] using ri, ?_⟩
+        refine rec_frame x hr hxr hxc ?_
+        intro hxt hm
+        rcases exec_held he with ⟨lk0, ha0, _, _, hh⟩ | ⟨lk0, ha0, _, hh, _⟩ | ⟨_, hh⟩
+        · exact heldAcqRel lk0 (Or.inl hh) hxt _ hm rfl
+        · refine heldAcqRel lk0 (Or.inr ⟨hh, fun hk => ?_⟩) hxt _ hm rfl
+          subst hk; exact f5 ha0
+        · rw [hh]; exact hm
+      · -- the export reads the record
+        obtain ⟨hrheld, hxt⟩ := f6 ha
+        subst hsh
+        have hp : pend { sh := s.sh, th := upd s.th t l' } = pend s :=
+          pend_congr rfl (fun u => by by_cases hu : u = t <;> simp [upd, hu, hd, hb])
+        refine ⟨by simpa only [RecInv, fileItems, exportsItems, hp] using ri, fun u h => ?_, fun u h => ?_⟩
+        · by_cases hu : u = t
+          · subst hu; simp only [upd_same, hheld]; exact hrheld
+          · simp only [upd_other _ _ hu] at h ⊢; exact x.held u h
+        · by_cases hu : u = t
+          · subst hu; simp only [upd_same, hxc]
+          · simp only [upd_other _ _ hu] at h ⊢; exact x.copy u h
+      · -- the export ends (and, if clearing, hands the record over)
+        obtain ⟨hrheld, hxt⟩ := f7 c ha
+        have hxt' : (s.th t).xread = true := hxt
+        have hcopy : (s.th t).xcopy = s.sh.record := x.copy t hxt'
+        have hp : pend { sh := sh', th := upd s.th t l' } = pend s := by
           simp only [pend, ho]
           cases s.sh.owner .console with
           | none => rfl
           | some u => by_cases hu : u = t <;> simp [upd, hu, hd, hb]
-        simpa only [RecInv, fileItems, hr, hf, hp] using ri
+        refine ⟨?_, fun u h => ?_, fun u h => ?_⟩
+        · simp only [RecInv, fileItems, exportsItems, hp, hf, hr, hex] at ri ⊢
+          cases c
+          · simpa using ri
+          · simp only [if_true, List.flatMap_append, List.flatMap_cons, List.flatMap_nil, List.append_nil, hcopy]
+            simpa using ri
+        · by_cases hu : u = t
+          · subst hu; simp only [upd_same, hxr] at h; simp at h
+          · simp only [upd_other _ _ hu] at h; rw [alone hrheld u hu] at h; simp at h
+        · by_cases hu : u = t
+          · subst hu; simp only [upd_same, hxr] at h; simp at h
+          · simp only [upd_other _ _ hu] at h; rw [alone hrheld u hu] at h; simp at h
+      · -- nothing of the record moves
+        have hp : pend { sh := sh', th := upd s.th t l' } = pend s := by
+          simp only [pend, ho]
+          cases s.sh.owner .console with
+          | none => rfl
+          | some u => by_cases hu : u = t <;> simp [upd, hu, hd, hb]
+        refine ⟨by simpa only [RecInv, fileItems, exportsItems, hr, hf, hp, hex] using ri, ?_⟩
+        exact rec_frame x hr hxr hxc (fun _ h => by rw [hheld]; exact h)
     · rw [if_neg hg] at h
       simp only [Option.some.injEq] at h
       subst h
       have hp : pend { s with th := upd s.th t { s.th t with cont := r } } = pend s :=
         pend_congr rfl (fun u => by by_cases hu : u = t <;> simp [upd, hu])
-      simpa only [RecInv, fileItems, hp] using ri
+      refine ⟨by simpa only [RecInv, fileItems, exportsItems, hp] using ri, ?_⟩
+      exact rec_frame x rfl rfl rfl (fun _ h => h)
 
 theorem rec_run {cfg : Cfg} (hrec : cfg.record = true) (sched : List Nat) :
-    ∀ {s : State}, Inv cfg s → RecInv s → RecInv (run cfg s sched) := by
+    ∀ {s : State}, Inv cfg s → RecAll s → RecAll (run cfg s sched) := by
   induction sched with
   | nil => intro s _ h; exact h
   | cons t rest ih =>
